@@ -40,15 +40,17 @@ BadLeaf(d) == [kind |-> "rec", d |-> d, kids |-> <<>>, bad |-> TRUE]
 Hold(ks) == [kind |-> "rec", d |-> "H", kids |-> ks, bad |-> FALSE]
 CoreLeaves == {Leaf(d) : d \in {"A", "A2", "Acol", "B"}}
 Leaves == {Leaf(d) : d \in Descs \ {"H"}}
-BadLeaves == {BadLeaf(d) : d \in {"A", "Acol", "B"}}
+\* binary packer: text with a lone surrogate (A, Acol, B have text fields); JSON packer: an integer too long to be
+\* converted to decimal text (A2 has the integer field) -- json.dumps raises after the descriptors met so far went out
+BadLeaves == IF Packer = "json" THEN {BadLeaf("A2")} ELSE {BadLeaf(d) : d \in {"A", "Acol", "B"}}
 Holders == {Hold(ks) : ks \in {<<>>} \cup {<<a>> : a \in Leaves} \cup {<<a, b>> : a \in CoreLeaves, b \in CoreLeaves}
                                   \cup {<<Leaf("U"), Leaf("A")>>, <<Leaf("A"), Leaf("U")>>, <<Leaf("Z"), Leaf("Z")>>, <<Leaf("Z"), Leaf("B")>>}}
 Plain == Leaves \cup Holders
 Groups == {[kind |-> "grp", d |-> "G", kids |-> <<a, b>>, bad |-> FALSE] :
               a \in Leaves, b \in {Leaf("B"), Leaf("A2"), Hold(<<Leaf("A2")>>)}}
 Recs == IF Packer = "json" THEN Plain ELSE Plain \cup Groups
-\* values whose write fails part-way (binary packer only; the JSON packer escapes such text)
-FailRecs == IF Packer = "json" THEN {}
+\* values whose write fails part-way
+FailRecs == IF FALSE THEN {}
             ELSE BadLeaves \cup {Hold(<<x>>) : x \in BadLeaves}
                            \cup {Hold(<<a, x>>) : a \in CoreLeaves, x \in BadLeaves} \cup {Hold(<<x, a>>) : a \in CoreLeaves, x \in BadLeaves}
 
